@@ -46,6 +46,56 @@ def make_stub_surrogate(bs, pool_size, predict_fn, log):
     return StubSurrogate(bs, candidate_pool_size=pool_size)
 
 
+def cors_radii(chk: Check, rng):
+    """CORSSampler's radius schedule, life-long counter and constraint counts against BlackIt.Cors.run, bit for bit: the real sampler runs verbosely (it prints every
+    radius; repr round-trips) over histories that grow as in a calibration; the number of distance constraints of every minimisation is read off the call to
+    scipy's minimize.  Within the schedule's domain (fewer than max_samples - 1 points proposed: beyond it the base of the power is negative)."""
+    import black_it.samplers.cors as cm
+    from black_it.search_space import SearchSpace
+
+    reqs, impls, metas = [], [], []
+    for _case in range(5 if chk.tier == "quick" else 60):
+        dims = rng.choice([1, 2, 3]); bs = rng.choice([1, 2, 3]); M = rng.choice([20, 30, 50, 100]); rho = rng.choice([0.5, 0.3, 1.0]); p = rng.choice([1.0, 2.0, 0.5])
+        sp = SearchSpace([[0.0] * dims, [1.0] * dims], [0.01] * dims, False)
+        smp = cm.CORSSampler(batch_size=bs, max_samples=M, rho0=rho, p=p, random_state=rng.randrange(1000), verbose=True)
+        pts = np.array([[rng.randrange(100) / 100 for _ in range(dims)] for _ in range(rng.randint(3, 6))]); losses = np.array([rng.random() + 0.1 for _ in pts])
+        ns, out = [], []
+        ncons = []
+        orig_min = cm.op.minimize
+
+        def rec_min(fun, x0, *a, _o=orig_min, _n=ncons, **k):
+            _n.append(len(k.get("constraints", ())))
+            return _o(fun, x0, *a, **k)
+        for _c in range(rng.randint(1, 3)):
+            buf = io.StringIO()
+            del ncons[:]
+            p0, l0 = pts.tobytes(), losses.tobytes()
+            cm.op.minimize = rec_min
+            try:
+                with contextlib.redirect_stdout(buf), warnings.catch_warnings():
+                    warnings.simplefilter("ignore")
+                    new = smp.sample_batch(bs, sp, pts, losses)
+            finally:
+                cm.op.minimize = orig_min
+            if pts.tobytes() != p0 or losses.tobytes() != l0:
+                chk.fail("CORSSampler modified the history passed to it", {"case": {"kind": "cors", "dims": dims, "bs": bs}})
+            radii = [float(ln.split("Using radius ")[1]) for ln in buf.getvalue().split("\n") if ln.startswith("Using radius")]
+            firsts = []          # constraints of the first attempt of each of the bs minimisations (a NaN result is retried with the same constraints)
+            for n_c in ncons:
+                if not firsts or n_c != firsts[-1]:
+                    firsts.append(n_c)
+            ns.append(len(pts)); out.append(" ".join(f2h(r) for r in radii) + " ; " + ",".join(str(x) for x in firsts))
+            extra = rng.randint(0, 2)
+            pts = np.vstack([pts, new] + ([np.array([[rng.randrange(100) / 100 for _ in range(dims)] for _ in range(extra)])] if extra else []))
+            losses = np.concatenate([losses, [rng.random() + 0.1 for _ in range(bs + extra)]])
+        reqs.append(f"cors.run {M} {f2h(rho)} {f2h(p)} {dims} {bs} {len(ns)} " + " ".join(map(str, ns))); impls.append(" | ".join(out))
+        metas.append({"max_samples": M, "rho0": rho, "p": p, "dims": dims, "batch_size": bs, "history_lengths": ns})
+        chk.case(["cors", M, rho, p, dims, bs, ns], True, metas[-1]); chk.count("cors_radius_schedule_cases")
+    for rq, impl, ans, meta in zip(reqs, impls, lean_run(reqs) if reqs else [], metas):
+        if impl != ans:
+            chk.disagree("CORSSampler radii / constraint counts != BlackIt.Cors.run", {**meta, "impl": impl[:400], "model": ans[:400]})
+
+
 def run(chk: Check):
     from black_it.samplers.best_batch import BestBatchSampler
 
@@ -63,6 +113,8 @@ def run(chk: Check):
                  "rows, failed and partial batches, emptied history): raw proposal and whole state after every call equal BlackIt.Pso.sampleBatch on the recorded draws, and the "
                  "conclusions of the Pso theorems are evaluated on the real object")
     pso_model.run(chk, 60 if chk.tier == "quick" else 1500)
+    chk.rule += "; (e) CORSSampler's radius schedule, life-long counter and constraint counts equal BlackIt.Cors.run"
+    cors_radii(chk, rng)
     reqs, metas = [], []
     # ---------------- (a) no mutation
     n_a = 8 if chk.tier == "quick" else 100
@@ -303,6 +355,21 @@ def run(chk: Check):
             pool = [float("inf"), fmax, float("inf"), fmax, -fmax, -float("inf"), 1e300, 1.0, 2.0]
             losses = np.array([rng.choice(pool) for _ in range(len(pts))])
             chk.count("bestbatch:extreme_losses")
+        if rng.random() < 0.35:
+            # a history recorded on OTHER bounds / another precision (a calibration continued on a narrowed or refined space): some of its best points lie a few
+            # steps outside the present bounds, others inside but off the present grid; the proposal is still "displaced, then confined"
+            order0 = np.argsort(losses, kind="stable")[: max(1, bs)]
+            for kk in order0:
+                for j in range(sp.dims):
+                    mode = rng.choice(["keep", "above", "below", "off_grid"])
+                    pj, lo_j, hi_j = sp.parameters_precision[j], sp.parameters_bounds[0][j], sp.parameters_bounds[1][j]
+                    if mode == "above":
+                        pts[kk, j] = hi_j + pj * rng.choice([0.4, 1.0, 2.4, 3.0])
+                    elif mode == "below":
+                        pts[kk, j] = lo_j - pj * rng.choice([0.4, 1.0, 2.4, 3.0])
+                    elif mode == "off_grid":
+                        pts[kk, j] = min(hi_j, pts[kk, j] + pj * rng.choice([0.37, 0.5, 0.81]))
+            chk.count("bestbatch:best_points_outside_the_bounds_or_off_the_grid")
         try:
             with recording_snaps() as rec, quiet():
                 out = smp.sample_batch(bs, sp, pts, losses)
@@ -351,7 +418,9 @@ def run(chk: Check):
             for c, s, plus in sh:
                 want[c] = np.clip(want[c] + sp.parameters_precision[c] * (1 if plus else -1) * s, sp.parameters_bounds[0][c], sp.parameters_bounds[1][c])
             unsh = [j for j in range(sp.dims) if j not in {c for c, _, _ in sh}]
-            if any(f2h(out[r][j]) != f2h(parent[j]) for j in unsh):
+            # (a coordinate that was not shocked comes back as it was when it is an element of the grid; a parent coordinate off the grid or outside the bounds is
+            # "confined to the space" like the shocked ones: the nearest-grid-element test below covers it)
+            if any(f2h(out[r][j]) != f2h(parent[j]) for j in unsh if any(f2h(gv) == f2h(parent[j]) for gv in sp.param_grid[j])):
                 chk.fail("best-batch altered a coordinate it did not shock", case)
             gcol = sp.param_grid
             for j in range(sp.dims):
